@@ -47,12 +47,12 @@ def run(ctx, pool, configs, why_filter=None):
         for m in mism:
             if why_filter and not why_filter(m):
                 continue
-            key = (m["entry"], tuple(sorted(m["rules"])), tuple(sorted(m["source_rules"] or [])), m["why"][:20])
+            key = (m["entry"], tuple(sorted(m["rules"] or [])), tuple(sorted(m["source_rules"] or [])), m["why"][:20])
             if key in seen:
                 continue
             seen.add(key)
             what = "%s: rules %s referrer rules %s: spec %s, code %s %s (%s)" % (
-                m["entry"], m["rules"], m["source_rules"] or [], m["expected"], m["got"], m["got_rule"], m["why"])
+                m["entry"], m["rules"] or [], m["source_rules"] or [], m["expected"], m["got"], m["got_rule"], m["why"])
             c = m["case"]
             pool_rec = {"kind": "POOL", "main": c.pop("main"), "src": c.pop("src")}
             ctx.report(what, {"reexec": ["replay-verdict"], "input": [pool_rec, c], "lists": m.get("lists")},
